@@ -30,12 +30,38 @@ def scenario(n, path, rstack, drops, again):
                                   lambda: (w.ncp.out.append(__import__("harness.ashlib", fromlist=["x"]).spec_wire("K", code=0x02)), w.pump()))
             elif rstack == "late":
                 w.loop.call_later(1.5, lambda: (w.ncp.out.append(__import__("harness.ashlib", fromlist=["x"]).spec_wire("K", code=0x0B)), w.pump()))
+            if again == "retry":
+                # the acknowledgement of the very first reset is lost: that bring-up fails; the caller tries again on the same object
+                w.ncp.drop_next_tx = 1
+                try:
+                    await w.ezsp.startup_reset()
+                    out["first_try"] = "completed"
+                except BaseException as e:  # noqa: BLE001
+                    out["first_try"] = type(e).__name__
+                out["w_retry"] = len([1 for d, b in w.wire_log if d == "h2n"])
+                out["n_retry"] = len(w.ncp.rx_frames)
             await w.ezsp.startup_reset()
             out["ev1"] = w.ezsp.ezsp_version
             out["hv1"] = w.ezsp._protocol.VERSION
             out["n1"] = len(w.ncp.rx_frames)
             await w.ezsp.write_config({})
             out["cfg"] = True
+            if again == "retry":
+                await w.ezsp.getEui64()
+                return True
+            if isinstance(again, str) and again.startswith("crossing"):
+                # a later reset on a busy link: a callback the NCP sent just before it saw the RST is still on the wire and reaches
+                # the host after the RST went out and before the RSTACK; the NCP's frame counter stands at k
+                k = int(again[-1])
+                for _ in range(16):
+                    if w.ncp.tx_seq == k:
+                        break
+                    await w.ezsp.getEui64()
+                held = []
+                w.ncp.callback("stackStatusHandler", status=0x90)
+                held, w.ncp.out[:] = list(w.ncp.out), []
+                w.ncp.boot_delay = 0.4
+                w.loop.call_later(0.05, lambda: (w.ncp.out.__setitem__(slice(0, 0), held), w.pump()))
             if again:
                 out["n2"] = len(w.ncp.rx_frames)
                 out["w2"] = len([1 for d, b in w.wire_log if d == "h2n"])
@@ -49,7 +75,22 @@ def scenario(n, path, rstack, drops, again):
                         out["lost_reset"] = type(e).__name__
                     out["n2"] = len(w.ncp.rx_frames)
                     out["w2"] = len([1 for d, b in w.wire_log if d == "h2n"])
-                if again in ("startup", "lost"):
+                if again == "lost-retry":
+                    # as "lost", but the caller simply tries startup_reset() again without stopping EZSP first
+                    w.ncp.drop_next_tx = 1
+                    try:
+                        await w.ezsp.reset()
+                        out["lost_reset"] = "completed"
+                    except BaseException as e:  # noqa: BLE001
+                        out["lost_reset"] = type(e).__name__
+                    out["n2"] = len(w.ncp.rx_frames)
+                    out["w2"] = len([1 for d, b in w.wire_log if d == "h2n"])
+                    await w.ezsp.startup_reset()
+                    out["ev2"] = w.ezsp.ezsp_version
+                    out["hv2"] = w.ezsp._protocol.VERSION
+                    await w.ezsp.write_config({})
+                    out["ev_after_reset"] = out["hv_after_reset"] = 4
+                elif again in ("startup", "lost"):
                     # the way ControllerApplication._reset does it
                     w.ezsp.stop_ezsp()
                     await w.ezsp.startup_reset()
@@ -88,6 +129,15 @@ def native_query(n, seq):
 
 def oracle(n, path, rstack, drops, again, o):
     faults = drops != (0, 0)
+    if again == "retry" and o["result"] == "ok":
+        if o.get("first_try") == "completed":
+            return None if o["ev1"] == n else f"negotiated protocol version {o['ev1']}, the NCP reports {n}"
+        if RST not in b"".join(o["wire_h2n"][o["w_retry"]:o["w_retry"] + 2]):
+            return (f"bring-up retried after a failed reset handshake ({o.get('first_try')}) did not perform the handshake again: first writes of the retry "
+                    f"{[hx(b) for b in o['wire_h2n'][o['w_retry']:o['w_retry'] + 2]]}")
+        if o["ev1"] != n or o["hv1"] != min(n, 14):
+            return f"bring-up retried after a failed reset handshake negotiated {o['ev1']}/{o['hv1']}, the NCP reports {n}"
+        return None
     if o["result"] != "ok":
         if faults and o["result"].startswith("raised:") and not o["misframed"]:
             # under link faults a clean failure is acceptable; mis-framed requests are not
@@ -144,6 +194,15 @@ def cases(ctx):
                 cs.append((n, path, rstack, (0, 0), "startup"))
                 cs.append((n, path, rstack, (0, 0), "lost"))
     for n in versions:
+        # a failed reset handshake (acknowledgement lost) followed by a plain retry on the same object; a later reset whose RST
+        # crosses a callback of the old session carrying each possible frame number
+        if n in (4, 6, 8, 13, 14, 15) or ctx.tier == "thorough":
+            cs.append((n, "/dev/ttyUSB0", None, (0, 0), "retry"))
+            cs.append((n, "/dev/ttyUSB0", None, (0, 0), "lost-retry"))
+        if n in (4, 8, 14) or ctx.tier == "thorough":
+            for k in range(8):
+                cs.append((n, "/dev/ttyUSB0", None, (0, 0), f"crossing{k}"))
+    for n in versions:
         for rx in range(0, ctx.n(4, 7)):
             for tx in range(0, ctx.n(4, 7)):
                 if (rx, tx) != (0, 0):
@@ -167,6 +226,10 @@ def run(ctx):
         if bad:
             ctx.violation(bad, {"kind": "config-missing" if "KeyError" in bad else "bringup", "version_gt_14": n > 14},
                           {"n": n, "path": path, "rstack": rstack, "drops": list(drops), "again": again})
+        if again in ("retry", "lost-retry") or (isinstance(again, str) and again.startswith("crossing")):
+            ctx.count("history:" + again.rstrip("0123456789"))
+            if again == "retry":
+                continue
         if model is not None and o["result"] == "ok" and drops == (0, 0):
             m = model1[i].split()
             qs = [x for x in m if "=" not in x]
@@ -187,7 +250,7 @@ def run(ctx):
         if i % 60 == 0:
             ctx.sample({"case": list(map(str, c)), "result": o["result"], "frames": o["frames"][:3], "ev": o.get("ev1"), "hv": o.get("hv1")})
     ctx.cov["rule"] = ("NCP protocol versions 4..14, 15, 16, 255 x {serial path; socket path with the spontaneous start-up RSTACK early / late / absent} with a later reset and renegotiation (EZSP.reset + version; stop_ezsp + startup_reset + write_config; the same after a reset whose acknowledgement was lost), "
-                       "and link faults during bring-up (the NCP loses the first 0..2 (0..5 thorough) frames in each direction); every run is a full connect + startup_reset + write_config of the real stack")
+                       "a bring-up whose first reset acknowledgement is lost retried on the same object, a later reset with a lost acknowledgement retried without stopping EZSP, a later reset whose RST crosses a callback of the old session carrying each frame number 0..7; and link faults during bring-up (the NCP loses the first 0..2 (0..5 thorough) frames in each direction); every run is a full connect + startup_reset + write_config of the real stack")
     ctx.exhaustive = True
 
 
